@@ -108,8 +108,14 @@ def sx_to_point(space, x, rng=None):
         return np.array(x[1:], dtype=np.int64)
     if isinstance(space, GymBox):
         if x[0] == 1:
-            return np.array(x[1:], dtype=space.dtype).reshape(space.shape)
-        return np.array([v / TICK for v in x[1:]], dtype=space.dtype).reshape(space.shape)
+            arr = np.array(x[1:], dtype=space.dtype).reshape(space.shape)
+        else:
+            arr = np.array([v / TICK for v in x[1:]], dtype=space.dtype).reshape(space.shape)
+        if rng is not None and arr.ndim >= 2 and rng.random() < 0.5:
+            # the same point in a non-C-contiguous memory layout (a transposed view, an observer
+            # that rotates its window): the logical content is what counts
+            arr = np.asfortranarray(arr)
+        return arr
     if isinstance(space, Tuple):
         return tuple(sx_to_point(s, q, rng) for s, q in zip(space.spaces, x[1:]))
     if isinstance(space, Dict):
